@@ -96,7 +96,7 @@ func LoadNormalized(cfg Config) (*Program, error) {
 		return nil, err
 	}
 	var notes []string
-	for round := 0; round < 4; round++ {
+	for round := 0; round < 6; round++ {
 		ov, n, err := p.inlineNewHelpers(&notes, round*1000)
 		if err != nil || n == 0 {
 			break
@@ -457,8 +457,6 @@ func (in *inliner) calleeUnsupported(di *declInfo) string {
 		switch x := n.(type) {
 		case *ast.DeferStmt:
 			why = "callee defers"
-		case *ast.LabeledStmt:
-			why = "callee has labels"
 		case *ast.BranchStmt:
 			if x.Tok == token.GOTO {
 				why = "callee has goto"
@@ -785,6 +783,13 @@ func (in *inliner) expand(call *ast.CallExpr, obj *types.Func, recv ast.Expr, lh
 							ren[o] = fmt.Sprintf("%s_h%d", x.Name, id)
 						}
 					}
+					if _, isLabel := o.(*types.Label); isLabel {
+						// labels are function-wide: a copy of the callee gets its own (the callee may carry the labels of helpers
+						// inlined into it in an earlier round, and may be copied twice into one caller)
+						if _, ok := ren[o]; !ok {
+							ren[o] = fmt.Sprintf("%s_h%d", x.Name, id)
+						}
+					}
 					if nn, ok := ren[o]; ok {
 						eds = append(eds, ed{coff(x.Pos()), coff(x.End()), nn})
 					}
@@ -983,7 +988,11 @@ func (in *inliner) hoist(call *ast.CallExpr, obj *types.Func, recv ast.Expr, sta
 		in.skip(obj, "statement is not in a statement list")
 		return
 	}
+	if in.desugar(stmt, call, obj) {
+		return
+	}
 	var root ast.Expr // the expression of stmt that contains the call and is evaluated first
+	declares := false
 	switch s := stmt.(type) {
 	case *ast.ExprStmt:
 		root = s.X
@@ -1018,6 +1027,14 @@ func (in *inliner) hoist(call *ast.CallExpr, obj *types.Func, recv ast.Expr, sta
 		if len(s.Results) > 0 {
 			root = s.Results[0]
 		}
+	case *ast.DeclStmt:
+		//  var x T = call(...)  (the form the inliner itself produces for the parameters of an inlined helper)
+		if gd, ok := s.Decl.(*ast.GenDecl); ok && gd.Tok == token.VAR && len(gd.Specs) == 1 {
+			if vs, ok := gd.Specs[0].(*ast.ValueSpec); ok && len(vs.Values) >= 1 {
+				root = vs.Values[0]
+				declares = true
+			}
+		}
 	case *ast.IfStmt:
 		if s.Init == nil {
 			root = s.Cond
@@ -1047,7 +1064,7 @@ func (in *inliner) hoist(call *ast.CallExpr, obj *types.Func, recv ast.Expr, sta
 		return
 	}
 	// a := / var declarations of stmt must stay visible after it: only wrap when stmt declares nothing
-	if as, ok := stmt.(*ast.AssignStmt); ok && as.Tok == token.DEFINE {
+	if as, ok := stmt.(*ast.AssignStmt); (ok && as.Tok == token.DEFINE) || declares {
 		// declare the temp in front, keep the statement unwrapped
 		in.addGroup(
 			textEdit{start: in.off(stmt.Pos()), end: in.off(stmt.Pos()), text: "var " + tmp + " " + ts + "; " + body + "; "},
@@ -1058,6 +1075,69 @@ func (in *inliner) hoist(call *ast.CallExpr, obj *types.Func, recv ast.Expr, sta
 		textEdit{start: in.off(stmt.Pos()), end: in.off(stmt.Pos()), text: "{ var " + tmp + " " + ts + "; " + body + "; "},
 		textEdit{start: in.off(call.Pos()), end: in.off(call.End()), text: tmp},
 		textEdit{start: in.off(stmt.End()), end: in.off(stmt.End()), text: " }"})
+}
+
+// desugar rewrites a statement in which the call is evaluated conditionally or repeatedly into an equivalent one in which it
+// stands at a position the next round can hoist it from:
+//
+//	for init; C[call]; post { B }      =>  for init; ; post { if !(C) { break }; B }
+//	return X && Y[call]                =>  { if !(X) { return false }; return Y }        ( || : if X { return true } )
+//	if init; X && Y[call] { B }        =>  if init; X { if Y { B } }                     (no else branch)
+//
+// The inserted break belongs to the loop (it stands directly in its body); continue still runs post and comes back to the test.
+func (in *inliner) desugar(stmt ast.Stmt, call *ast.CallExpr, obj *types.Func) bool {
+	within := func(e ast.Expr) bool { return e != nil && e.Pos() <= call.Pos() && call.End() <= e.End() }
+	universe := func(name string) bool {
+		sc := in.pk.Types.Scope().Innermost(call.Pos())
+		if sc == nil {
+			return false
+		}
+		_, o := sc.LookupParent(name, call.Pos())
+		return o != nil && o.Parent() == types.Universe
+	}
+	switch s := stmt.(type) {
+	case *ast.ForStmt:
+		if !within(s.Cond) {
+			return false
+		}
+		in.addGroup(
+			textEdit{start: in.off(s.Cond.Pos()), end: in.off(s.Cond.End()), text: ""},
+			textEdit{start: in.off(s.Body.Lbrace) + 1, end: in.off(s.Body.Lbrace) + 1, text: " if !(" + in.text(s.Cond) + ") { break }; "})
+		*in.notes = append(*in.notes, fmt.Sprintf("loop condition calling new helper %s moved into the loop body at %s", obj.Name(), in.p.Position(call.Pos())))
+		return true
+	case *ast.ReturnStmt:
+		if len(s.Results) != 1 {
+			return false
+		}
+		be, ok := ast.Unparen(s.Results[0]).(*ast.BinaryExpr)
+		if !ok || (be.Op != token.LAND && be.Op != token.LOR) || !within(be.Y) || !universe("true") || !universe("false") {
+			return false
+		}
+		var text string
+		if be.Op == token.LAND {
+			text = "{ if !(" + in.text(be.X) + ") { return false }; return " + in.text(be.Y) + " }"
+		} else {
+			text = "{ if " + in.text(be.X) + " { return true }; return " + in.text(be.Y) + " }"
+		}
+		in.addGroup(textEdit{start: in.off(s.Pos()), end: in.off(s.End()), text: text})
+		*in.notes = append(*in.notes, fmt.Sprintf("short-circuit return calling new helper %s split at %s", obj.Name(), in.p.Position(call.Pos())))
+		return true
+	case *ast.IfStmt:
+		if s.Else != nil {
+			return false
+		}
+		be, ok := ast.Unparen(s.Cond).(*ast.BinaryExpr)
+		if !ok || be.Op != token.LAND || !within(be.Y) {
+			return false
+		}
+		in.addGroup(
+			textEdit{start: in.off(s.Cond.Pos()), end: in.off(s.Cond.End()), text: in.text(be.X)},
+			textEdit{start: in.off(s.Body.Lbrace) + 1, end: in.off(s.Body.Lbrace) + 1, text: " if " + in.text(be.Y) + " {"},
+			textEdit{start: in.off(s.Body.Rbrace), end: in.off(s.Body.Rbrace), text: "} "})
+		*in.notes = append(*in.notes, fmt.Sprintf("short-circuit condition calling new helper %s nested at %s", obj.Name(), in.p.Position(call.Pos())))
+		return true
+	}
+	return false
 }
 
 // evaluatedFirst: on the way from root down to call, the call is always the first operand evaluated and never conditional.
